@@ -147,6 +147,18 @@ def p_from(eng, st, name, args, site, depth, call):
     return one(st, v)
 
 
+@prim_re(r"^std::convert::num::<impl std::convert::From(<[ui](8|16|32|64|128|size)>)? for [ui](8|16|32|64|128|size)>::from$")
+def p_int_widen(eng, st, name, args, site, depth, call):
+    return one(st, eng.val(st, args[0]))        # std implements From only for lossless integer conversions: the same number
+
+
+@prim("cosmwasm_std::coin", "cosmwasm_std::coins")
+def p_coin(eng, st, name, args, site, depth, call):
+    # coin(amount, denom) = Coin { denom: denom.into(), amount: Uint128::new(amount) }; coins(..) = vec![coin(..)]
+    c = ("struct", "cosmwasm_std::coin::Coin", (("denom", eng.val(st, args[1])), ("amount", eng.val(st, args[0]))))
+    return one(st, ("list", (c,)) if name.endswith("coins") else c)
+
+
 @prim_re(r"^<.* as std::default::Default>::default$")
 def p_default(eng, st, name, args, site, depth, call):
     m = re.match(r"^<(.*) as std::default::Default>::default$", name)
@@ -882,8 +894,10 @@ def p_resp_msg(eng, st, name, args, site, depth, call):
                 return [(how[:-1], y) for y in x[1]]
             if x[0] == "variant" and x[1] == OPTION:
                 return [(how[:-1], x[3][0][1])] if x[2] == "Some" else []
-            if x[0] == "call" and (x[1].endswith("Iterator::chain") or x[1] == "extend") and len(x[2]) == 2:
+            if x[0] == "call" and (x[1].endswith("Iterator::chain") or x[1] in ("extend", "chain")) and len(x[2]) == 2:
                 return flat(x[2][0]) + flat(x[2][1])
+            if x[0] == "call" and len(x[2]) == 1 and x[1].split("::")[-1] in ("collect", "from_iter", "into_iter", "iter", "to_vec", "cloned", "into_vec"):
+                return flat(x[2][0])        # the same sequence, collected / viewed
             if x[0] == "call" and x[1] == "push" and len(x[2]) == 2:
                 return flat(x[2][0]) + [(how[:-1], x[2][1])]
             if x[0] == "call" and x[1] in ("std::iter::once", "core::iter::once") and len(x[2]) == 1:
@@ -1079,12 +1093,19 @@ def p_nb_normalize(eng, st, name, args, site, depth, call):
 
 
 @prim("std::slice::<impl [T]>::sort", "std::slice::<impl [T]>::sort_by", "std::slice::<impl [T]>::sort_by_key",
-      "std::slice::<impl [T]>::sort_unstable", "std::vec::Vec::dedup", "std::vec::Vec::dedup_by_key",
+      "std::slice::<impl [T]>::sort_unstable", "std::slice::<impl [T]>::sort_unstable_by", "std::slice::<impl [T]>::sort_unstable_by_key",
+      "std::slice::<impl [T]>::sort_by_cached_key", "std::vec::Vec::dedup", "std::vec::Vec::dedup_by_key",
       "std::vec::Vec::dedup_by")
 def p_sort_dedup(eng, st, name, args, site, depth, call):
     a = args[0]
     op = name.split("::")[-1]
     rest = tuple(eng.val(st, x) for x in args[1:])
+    if not rest and call is not None and call.get("substs"):
+        # natural order / equality of the element type: for a workspace type that is whatever its Ord / PartialEq impl says,
+        # which the term must show (sorting rows by their own order is not sorting them by one of their fields)
+        ety = call["substs"][0].get("ty", "").lstrip("&").replace("mut ", "").strip()
+        if eng.facts.is_workspace_type(ety):
+            rest = (("str", "by-impl:" + ety),)
     new = ("call", op, (eng.val(st, a),) + rest)
     if a[0] == "ref":
         eng.write_loc(st, a[1], a[2], new)
